@@ -101,8 +101,18 @@ fn corpus(ctx: CtxK) -> Vec<Node> {
         AndV(bx(Verify(bx(True))), bx(True)),
         OrI(bx(Verify(bx(True))), bx(Verify(bx(False)))),
     ];
+    // fragments that can only be SATISFIED with four or more inputs (their satisfying run comes
+    // from the specification's canonical satisfaction, not from the enumerated stacks)
+    v.extend([
+        AndB(bx(pkh(a)), bx(Alt(bx(pkh(b))))),
+        Thresh(3, vec![pk(a), Swap(bx(pk(b))), Alt(bx(pkh(c)))]),
+        AndV(bx(Verify(bx(pkh(a)))), bx(AndV(bx(Verify(bx(pkh(b)))), bx(After(100))))),
+        AndOr(bx(AndB(bx(pkh(a)), bx(Alt(bx(pkh(b)))))), bx(Older(10)), bx(False)),
+        OrD(bx(AndB(bx(pkh(a)), bx(Alt(bx(pkh(b)))))), bx(AndV(bx(Verify(bx(pkh(c)))), bx(After(100))))),
+    ]);
     if ctx == CtxK::Tap {
         v.extend([
+            AndV(bx(Verify(bx(MultiA(3, vec![a, b, c])))), bx(AndV(bx(Verify(bx(pk(a)))), bx(After(100))))),
             MultiA(1, vec![a]), MultiA(1, vec![a, b]), MultiA(2, vec![a, b]), MultiA(2, vec![a, b, c]), MultiA(3, vec![a, b, c]),
             SortedMultiA(2, vec![c, a, b]),
             Verify(bx(MultiA(2, vec![a, b]))), Alt(bx(MultiA(1, vec![a, b]))),
@@ -112,6 +122,8 @@ fn corpus(ctx: CtxK) -> Vec<Node> {
         ]);
     } else {
         v.extend([
+            AndV(bx(Verify(bx(Multi(3, vec![a, b, c])))), bx(After(100))),
+            AndOr(bx(Multi(3, vec![a, b, c])), bx(After(100)), bx(False)),
             Multi(1, vec![a]), Multi(1, vec![a, b]), Multi(2, vec![a, b]), Multi(2, vec![a, b, c]), Multi(3, vec![a, b, c]),
             SortedMulti(2, vec![c, a, b]),
             Verify(bx(Multi(2, vec![a, b]))), Alt(bx(Multi(1, vec![a, b]))),
@@ -275,6 +287,30 @@ fn matrix<Pk: msops::HKey, Ctx: ScriptContext>(out: &mut Out, ctx: CtxK, thoroug
                 }
             }
         }
+        // thresholds whose child at index 2 / 3 ranges over EVERY type (the first two / three children
+        // are fixed well-typed ones): the rule must check base, `d` and `u` at every index
+        {
+            let ks = ast::ctx_keys(ctx, 3);
+            let good_b = ast::to_ms::<Pk, Ctx>(&Node::Check(Box::new(Node::PkK(ks[0])))).ok().map(Arc::new);
+            let good_w = ast::to_ms::<Pk, Ctx>(&Node::Swap(Box::new(Node::Check(Box::new(Node::PkK(ks[1])))))).ok().map(Arc::new);
+            if let (Some(gb), Some(gw)) = (good_b, good_w) {
+                let nb = Node::Check(Box::new(Node::PkK(ks[0])));
+                let nw = Node::Swap(Box::new(Node::Check(Box::new(Node::PkK(ks[1])))));
+                for x in &reps {
+                    for (n_fixed, kind) in [(2usize, "thresh/B,W,X"), (3, "thresh/B,W,W,X")] {
+                        let mut subs = vec![gb.clone()]; let mut nodes = vec![nb.clone()];
+                        for _ in 1..n_fixed { subs.push(gw.clone()); nodes.push(nw.clone()); }
+                        subs.push(x.ms.clone()); nodes.push(x.node.clone());
+                        for k in [1usize, n_fixed + 1] {
+                            if let Ok(th) = Threshold::new(k, subs.clone()) {
+                                try_one(out, rng, kind, b1(x), format!("{} k={} {}", kind, k, x.ty), Terminal::Thresh(th),
+                                    Node::Thresh(k, nodes.clone()), &mut fresh, &mut emitted);
+                            }
+                        }
+                    }
+                }
+            }
+        }
         // three-child thresholds: k = 1, 2, 3 over a seeded sample of class representatives
         for _ in 0..(if thorough { 600 } else { 60 }) {
             let (x, y, z) = (&reps[rng.below(reps.len())], &reps[rng.below(reps.len())], &reps[rng.below(reps.len())]);
@@ -329,7 +365,8 @@ fn domain(node: &Node, ctx: CtxK, tier: usize) -> (usize, usize, usize, usize) {
     // the signature tables are keyed by the secret (id mod 100): a compressed and an uncompressed
     // key of the same secret share their ECDSA signature bytes
     let mut secrets: Vec<u32> = ids.iter().map(|i| i % 100).collect(); secrets.sort(); secrets.dedup();
-    let nsig = secrets.len() * per_key;
+    // Tap, tiers 0/1: the first key also contributes its 65-byte signature (explicit sighash byte)
+    let nsig = secrets.len() * per_key + if ctx == CtxK::Tap && tier < 2 && nk > 0 { 1 } else { 0 };
     let extra = if nk > 0 { 2 } else { 0 };            // wrong-key signature + invalid signature
     let mut hs = vec![]; node.hashes(&mut hs);
     let mut pre: Vec<u32> = vec![];
@@ -452,6 +489,102 @@ fn emit_str(out: &mut Out, ctx: CtxK, node: &Node, op: &str) {
     }
 }
 
+/* ------------------------------------------------------------------ context acceptance
+   Candidates are offered to EVERY context with both key types (full keys: ids 0.. compressed,
+   100.. uncompressed; x-only keys: ids 200..).  What `from_ast` answers - the type, or the KIND of
+   the first refusal (typing rule / context rule) - is compared with the Lean model
+   (`Model/Validate.lean` nodeChecked + typeOf) on a `C typeofctx` line.  No J: the statement of
+   C06 is about types vs execution, not about which context admits which fragment. */
+
+fn build_kind<Pk: ast::KeyOf, Ctx: ScriptContext>(n: &Node) -> Result<Miniscript<Pk, Ctx>, &'static str> {
+    use Node::*;
+    let sub = |x: &Node| -> Result<Arc<Miniscript<Pk, Ctx>>, &'static str> { Ok(Arc::new(build_kind::<Pk, Ctx>(x)?)) };
+    let keys = |v: &Vec<u32>| -> Vec<Pk> { v.iter().map(|i| Pk::of(*i)).collect() };
+    let t: Terminal<Pk, Ctx> = match n {
+        True => Terminal::True, False => Terminal::False,
+        PkK(k) => Terminal::PkK(Pk::of(*k)), PkH(k) => Terminal::PkH(Pk::of(*k)),
+        RawPkH(h) => Terminal::RawPkH(ast::raw_pkh(*h)),
+        After(x) => Terminal::After(miniscript::AbsLockTime::from_consensus(*x).map_err(|_| "ERR:other")?),
+        Older(x) => Terminal::Older(miniscript::RelLockTime::from_consensus(*x).map_err(|_| "ERR:other")?),
+        Hash(..) => return ast::to_ms::<Pk, Ctx>(n).map_err(|_| "ERR:other"),
+        Alt(x) => Terminal::Alt(sub(x)?), Swap(x) => Terminal::Swap(sub(x)?), Check(x) => Terminal::Check(sub(x)?),
+        DupIf(x) => Terminal::DupIf(sub(x)?), Verify(x) => Terminal::Verify(sub(x)?), NonZero(x) => Terminal::NonZero(sub(x)?),
+        ZeroNotEqual(x) => Terminal::ZeroNotEqual(sub(x)?),
+        AndV(a, b) => Terminal::AndV(sub(a)?, sub(b)?), AndB(a, b) => Terminal::AndB(sub(a)?, sub(b)?),
+        AndOr(a, b, c) => Terminal::AndOr(sub(a)?, sub(b)?, sub(c)?),
+        OrB(a, b) => Terminal::OrB(sub(a)?, sub(b)?), OrD(a, b) => Terminal::OrD(sub(a)?, sub(b)?),
+        OrC(a, b) => Terminal::OrC(sub(a)?, sub(b)?), OrI(a, b) => Terminal::OrI(sub(a)?, sub(b)?),
+        Thresh(k, xs) => {
+            let mut v = vec![]; for x in xs { v.push(sub(x)?); }
+            Terminal::Thresh(Threshold::new(*k, v).map_err(|_| "ERR:other")?)
+        }
+        Multi(k, v) => Terminal::Multi(Threshold::new(*k, keys(v)).map_err(|_| "ERR:other")?),
+        SortedMulti(k, v) => Terminal::SortedMulti(Threshold::new(*k, keys(v)).map_err(|_| "ERR:other")?),
+        MultiA(k, v) => Terminal::MultiA(Threshold::new(*k, keys(v)).map_err(|_| "ERR:other")?),
+        SortedMultiA(k, v) => Terminal::SortedMultiA(Threshold::new(*k, keys(v)).map_err(|_| "ERR:other")?),
+    };
+    Miniscript::from_ast(t).map_err(|e| match e {
+        miniscript::Error::TypeCheck(_) => "ERR:type",
+        miniscript::Error::ContextError(_) => "ERR:context",
+        _ => "ERR:other",
+    })
+}
+
+fn ctx_candidates(base: u32) -> Vec<Node> {
+    use Node::*;
+    // `base` = 0: full keys (0.. compressed, 100.. uncompressed); 200: x-only keys
+    let (a, b, c) = (base, base + 1, base + 2);
+    let alt_kind = if base == 0 { 100 } else { base + 3 };      // an uncompressed key where there is one
+    let pk = |i: u32| Check(bx(PkK(i)));
+    let pkh = |i: u32| Check(bx(PkH(i)));
+    let mut v = vec![
+        PkK(a), PkH(a), pk(a), pkh(a), PkK(alt_kind), PkH(alt_kind), pk(alt_kind), pkh(alt_kind),
+        Multi(1, vec![a]), Multi(2, vec![a, b, c]), SortedMulti(2, vec![c, a, b]), Multi(1, vec![a, alt_kind]),
+        MultiA(1, vec![a]), MultiA(2, vec![a, b, c]), SortedMultiA(2, vec![c, a, b]), MultiA(1, vec![a, alt_kind]),
+        AndV(bx(Verify(bx(pk(a)))), bx(pk(alt_kind))),
+        OrD(bx(pk(alt_kind)), bx(pk(a))),
+        OrD(bx(pkh(alt_kind)), bx(pk(a))),
+        AndB(bx(pk(a)), bx(Swap(bx(pkh(alt_kind))))),
+        Thresh(2, vec![pk(a), Swap(bx(pk(b))), Swap(bx(pk(alt_kind)))]),
+        Thresh(1, vec![Multi(1, vec![a, b]), Alt(bx(pk(c)))]),
+        Thresh(1, vec![MultiA(1, vec![a, b]), Alt(bx(pk(c)))]),
+        OrD(bx(Multi(1, vec![a, b])), bx(pk(c))), OrD(bx(MultiA(1, vec![a, b])), bx(pk(c))),
+        Verify(bx(Multi(2, vec![a, b]))), Verify(bx(MultiA(2, vec![a, b]))),
+        NonZero(bx(Multi(1, vec![a, b]))), NonZero(bx(MultiA(1, vec![a, b]))),
+        // ill typed AND out of context: the child is refused first
+        AndV(bx(pk(alt_kind)), bx(pk(a))), AndV(bx(pk(a)), bx(pk(alt_kind))), Verify(bx(PkK(alt_kind))),
+        AndV(bx(Multi(1, vec![a])), bx(pk(a))), AndV(bx(MultiA(1, vec![a])), bx(pk(a))),
+        // well typed everywhere, no keys
+        AndV(bx(Verify(bx(After(100)))), bx(Older(10))), OrI(bx(True), bx(False)),
+    ];
+    if base == 0 { v.extend([RawPkH(100), Check(bx(RawPkH(100))), Multi(2, vec![100, 101]), MultiA(2, vec![100, 101])]); }
+    v
+}
+
+fn emit_ctx_acceptance(out: &mut Out) {
+    use miniscript::bitcoin::secp256k1::XOnlyPublicKey;
+    use miniscript::bitcoin::PublicKey;
+    use miniscript::{BareCtx, Legacy, Segwitv0, Tap};
+    fn ans<Pk: ast::KeyOf, Ctx: ScriptContext>(n: &Node) -> String {
+        match build_kind::<Pk, Ctx>(n) { Ok(ms) => ts(&ms.ty), Err(k) => k.to_string() }
+    }
+    for ctx in CtxK::ALL {
+        for base in [0u32, 200] {
+            for n in ctx_candidates(base) {
+                let a = match (ctx, base) {
+                    (CtxK::Bare, 0) => ans::<PublicKey, BareCtx>(&n), (CtxK::Bare, _) => ans::<XOnlyPublicKey, BareCtx>(&n),
+                    (CtxK::Legacy, 0) => ans::<PublicKey, Legacy>(&n), (CtxK::Legacy, _) => ans::<XOnlyPublicKey, Legacy>(&n),
+                    (CtxK::Segwitv0, 0) => ans::<PublicKey, Segwitv0>(&n), (CtxK::Segwitv0, _) => ans::<XOnlyPublicKey, Segwitv0>(&n),
+                    (CtxK::Tap, 0) => ans::<PublicKey, Tap>(&n), (CtxK::Tap, _) => ans::<XOnlyPublicKey, Tap>(&n),
+                };
+                out.count(&format!("context acceptance {} {}: {}", ctx.name(), if base == 0 { "full keys" } else { "x-only keys" },
+                    if a.starts_with("ERR") { a.as_str() } else { "accepted" }));
+                out.line(&format!("C typeofctx {} {}", ctx.name(), n.wire()), &a);
+            }
+        }
+    }
+}
+
 pub fn run(out: &mut Out, thorough: bool, seed: u64) {
     let mut rng = Rng(seed ^ 0xC06);
     ast::emit_defs(out);
@@ -465,6 +598,16 @@ pub fn run(out: &mut Out, thorough: bool, seed: u64) {
         for node in corpus(ctx) {
             if !seen.insert(node.wire()) { continue; }
             if with_ctx!(ctx, emit_one(out, ctx, &node, op)) { n_frag += 1; all.push(node); out.count("corpus fragment"); }
+        }
+        // the shared designated fragments (all hash kinds, both lock units, wide / surplus multisig,
+        // raw key hashes, uncompressed keys in every position in Bare / Legacy)
+        for node in ast::dimension_corpus(ctx) {
+            if node.size() > 48 || !seen.insert(node.wire()) { continue; }
+            let mut ks = vec![]; node.keys(&mut ks); ks.sort(); ks.dedup();
+            let large = ks.len() > 3 || node.size() > 14;
+            if with_ctx!(ctx, emit_one(out, ctx, &node, if large { "typeexecq" } else { op })) {
+                n_frag += 1; all.push(node); out.count("dimension corpus fragment");
+            } else { out.count("dimension corpus fragment refused by the library in this context"); }
         }
         let atoms = ast::default_atoms(ctx, true);
         let (depth, quota) = if thorough { (3, 30) } else { (3, 7) };
@@ -487,6 +630,7 @@ pub fn run(out: &mut Out, thorough: bool, seed: u64) {
         // parser path for every judged fragment
         for node in &all { emit_str(out, ctx, node, "typeexecq"); }
     }
+    emit_ctx_acceptance(out);
     // negative controls: a deliberately too strong type for a known fragment must be refuted by
     // the judge on the stated letter (shows the judge is not vacuous; independent of the library)
     let neg: [(&str, &str, &str, &str); 9] = [
